@@ -28,6 +28,9 @@ RULE = (
 ASSUMPTIONS = [
     "HUGR arithmetic.int / conversions / logic ops behave as their shipped descriptions say (Model/IntSem.lean quotes each); in particular "
     "idivmod_s reads its divisor unsigned and ishr is a logical shift. They live outside /repo; nothing compiled from /repo can be executed here.",
+    "thorough tier: IntSem agrees with the installed 1.0.4 emulator on ~3100 boundary results (28 ops) EXCEPT imod_s with n = -2^63, where the runtime "
+    "returns a remainder outside [0, m) (e.g. (-2^63) % 7 = 8) contradicting the op's description; IntSem follows the description, so `int % b` at "
+    "a = -2^63 is covered by the theorem only modulo that runtime defect (outside /repo)",
     "is_to_u: the shipped description is a copy of iabs's; modelled as identity on non-negative inputs and panic on negative ones",
     "every arithmetic.float op (fadd, fsub, fmul, fdiv, ffloor, fneg, fabs, fpow, comparisons) is the IEEE-754 double operation that CPython uses "
     "for the same operator; convert_s / convert_u round the signed / unsigned reading to nearest-even like Python's float(int). Float results are "
@@ -41,7 +44,7 @@ UNMODELLED = [
     "int ∘ float comparisons are evaluated with the integer converted to float first (as the code does); Python compares exactly — differences "
     "beyond 2^53 are reported under the known-finding class op:mixed-int-float-compare",
     "shift counts >= 64 and negative shift counts (outside the statement's guard); pow with exponents > 65 is not evaluated on the grid",
-    "the 1.0.4-emulator validation of IntSem (optional in the design) is not run",
+    "the 1.0.4-emulator validation of IntSem runs in the thorough tier only and covers the integer ops and convert_s/convert_u on a 12x12 / 10x10 grid",
 ]
 MANIFEST = {
     "level_text": "Lean theorems, one per operator family, for ALL 64-bit operands under the statement's definedness guard: the value the operator "
@@ -52,7 +55,8 @@ MANIFEST = {
     "D11: int // % divmod and int >> are proved only under the forced hypotheses (0 < b, 0 <= a) with decided counterexamples; float // % divmod and "
     "int/int are proved structurally (floor(a/b); float(a)/float(b)). Tie: T-src table + T-obj cross-check of every row and operator form by "
     "lowering probes with the real compiler (op names and operand wiring) + value grids REAL/MODEL/ORACLE.",
-    "level_note": "partial: HUGR op semantics are assumed from the shipped descriptions (not executed; the optional emulator validation is not run); "
+    "level_note": "partial: HUGR op semantics are assumed from the shipped descriptions; in the thorough tier Model/IntSem is additionally validated "
+    "against the installed 1.0.4 emulator (one program, ~3000 results, same dunder->op mapping as /repo) — nothing compiled from /repo is executed; "
     "float results are symbolic in Lean and evaluated with CPython floats. Known findings (D11) are keyed by operator class; any other operator/row "
     "that breaks is a violation.",
     "technique": "Lean 4 proof over a table regenerated from source (T-src) + extraction from real lowering (T-obj) + value grids against Python arithmetic",
@@ -906,6 +910,133 @@ def tie(ctx):
     ctx.extra["value_cases_with_independent_real_path"] = n_real
     ctx.extra["unexplained_violation_keys"] = [v["key"] + " :: " + v["what"] for v in ctx.violations][:60]
     ctx.extra["forms"] = len(forms)
+    if not ctx.quick and not getattr(ctx, "_emu_done", False):
+        ctx._emu_done = True
+        emulator_validation(ctx)
+
+
+# =====================================================================================================
+# thorough-tier extra: validate Model/IntSem.lean against the installed 1.0.4 emulator
+# =====================================================================================================
+EMU_OPS = [  # (guppy type, dunder, expression over a,b, HUGR op expected in the *installed* table, arity)
+    ("int", "__add__", "a + b", "iadd", 2), ("int", "__sub__", "a - b", "isub", 2), ("int", "__mul__", "a * b", "imul", 2),
+    ("int", "__and__", "a & b", "iand", 2), ("int", "__or__", "a | b", "ior", 2), ("int", "__xor__", "a ^ b", "ixor", 2),
+    ("int", "__floordiv__", "a // b", "idiv_s", 2), ("int", "__mod__", "a % b", "imod_s", 2),
+    ("int", "__lshift__", "a << b", "ishl", 2), ("int", "__rshift__", "a >> b", "ishr", 2),
+    ("int", "__lt__", "a < b", "ilt_s", 2), ("int", "__le__", "a <= b", "ile_s", 2), ("int", "__gt__", "a > b", "igt_s", 2),
+    ("int", "__ge__", "a >= b", "ige_s", 2), ("int", "__eq__", "a == b", "ieq", 2), ("int", "__ne__", "a != b", "ine", 2),
+    ("int", "__neg__", "-a", "ineg", 1), ("int", "__invert__", "~a", "inot", 1), ("int", "__abs__", "abs(a)", "iabs", 1),
+    ("nat", "__floordiv__", "a // b", "idiv_u", 2), ("nat", "__mod__", "a % b", "imod_u", 2),
+    ("nat", "__sub__", "a - b", "isub", 2), ("nat", "__mul__", "a * b", "imul", 2), ("nat", "__rshift__", "a >> b", "ishr", 2),
+    ("nat", "__lshift__", "a << b", "ishl", 2), ("nat", "__pow__", "a ** b", "ipow", 2),
+    ("nat", "__lt__", "a < b", "ilt_u", 2), ("nat", "__le__", "a <= b", "ile_u", 2), ("nat", "__gt__", "a > b", "igt_u", 2),
+    ("nat", "__ge__", "a >= b", "ige_u", 2), ("nat", "__invert__", "~a", "inot", 1),
+]
+
+
+def emulator_validation(ctx):
+    """One Guppy 1.0.4 program (site-packages, separate process, no bootstrap shim) with one `result` per (op, operands);
+    its emulated values are compared with Model/IntSem.lean evaluated by the driver.  Only ops whose dunder the *installed*
+    num.py maps to the same HUGR op are used.  A disagreement means the assumed op semantics are wrong: infrastructure error."""
+    import subprocess
+    import numtable as nt
+    sp = "/venv/lib/python3.12/site-packages/guppylang/std/"
+    if not os.path.exists(sp + "num.py"):
+        ctx.extra["emulator_validation"] = "skipped: installed guppylang not found"
+        return
+    inst = {(r["type"], r["name"]): r["impl"] for r in nt.rows((sp + "num.py", sp + "bool.py"))}
+    gi = [0, 1, -1, 2, -3, 7, 63, -64, P53 + 1, -(1 << 62), P63 - 1, -P63]
+    gn = [0, 1, 2, 7, 63, 64, P53 + 1, P63 - 1, P63, P64 - 1]
+    funcs, calls, expect = [], [], []
+    skipped = []
+    for i, (ty, dn, expr, op, ar) in enumerate(EMU_OPS):
+        im = inst.get((ty, dn))
+        if not im or im.get("op") != op:
+            skipped.append(f"{ty}.{dn}")
+            continue
+        G = gi if ty == "int" else gn
+        cmp_ = op in ("ilt_s", "ile_s", "igt_s", "ige_s", "ieq", "ine", "ilt_u", "ile_u", "igt_u", "ige_u")
+        ret = "bool" if cmp_ else ty
+        args = f"a: {ty}, b: {ty}" if ar == 2 else f"a: {ty}"
+        funcs.append(f"@guppy\ndef f{i}({args}) -> {ret}:\n    return {expr}\n")
+        pairs = [(a, b) for a in G for b in G] if ar == 2 else [(a,) for a in G]
+        for j, vs in enumerate(pairs):
+            if ar == 2:
+                b = vs[1]
+                if op in ("idiv_s", "imod_s", "idiv_u", "imod_u") and b == 0:
+                    continue
+                if op in ("ishl", "ishr") and not (0 <= b < 64):
+                    continue
+                if op == "ipow" and b > 70:
+                    continue
+            tag = f"{i}:{j}"
+            calls.append(f"    result(\"{tag}\", f{i}({', '.join(str(v) for v in vs)}))")
+            expect.append((tag, op, ty, vs, ret))
+    # conversions
+    for k, (ty, G) in enumerate((("int", gi), ("nat", gn))):
+        funcs.append(f"@guppy\ndef c{k}(a: {ty}) -> float:\n    return float(a)\n")
+        for j, a in enumerate(G):
+            tag = f"c{k}:{j}"
+            calls.append(f"    result(\"{tag}\", c{k}({a}))")
+            expect.append((tag, "convert_s" if ty == "int" else "convert_u", ty, (a,), "float"))
+    prog = ("from guppylang import guppy\nfrom guppylang.std.builtins import nat, result\n\n" + "\n".join(funcs) +
+            "\n@guppy\ndef main() -> None:\n" + "\n".join(calls) + "\n\n"
+            "res = main.emulator(n_qubits=1).with_seed(1).run()\nimport json\n"
+            "print('EMU-RESULTS ' + json.dumps([[k, v] for k, v in res.results[0].entries]))\n")
+    path = os.path.join(vlib.OUT, "c04_emulator_prog.py")
+    os.makedirs(vlib.OUT, exist_ok=True)
+    open(path, "w").write(prog)
+    env = {k: v for k, v in os.environ.items() if k not in ("PYTHONPATH", "VERIF_REPO")}
+    try:
+        p = subprocess.run(["/venv/bin/python", path], cwd=vlib.OUT, env=env, capture_output=True, text=True, timeout=900)
+    except subprocess.TimeoutExpired:
+        ctx.extra["emulator_validation"] = "skipped: emulator run timed out"
+        return
+    line = next((l for l in p.stdout.splitlines() if l.startswith("EMU-RESULTS ")), None)
+    if line is None:
+        ctx.extra["emulator_validation"] = "skipped: emulator run failed: " + (p.stderr or p.stdout)[-300:]
+        return
+    got = dict(json.loads(line[len("EMU-RESULTS "):]))
+    reqs = []
+    for tag, op, ty, vs, ret in expect:
+        if ret != "float":
+            reqs.append("op " + op + " " + " ".join(str(bits(ty, v)) for v in vs))
+    reps = iter(ctx.driver(DRIVER, reqs))
+    bad, deviations = [], []
+    n = 0
+    for tag, op, ty, vs, ret in expect:
+        if tag not in got:
+            bad.append(f"{op}{vs}: no result")
+            continue
+        g = got[tag]
+        if ret == "float":
+            want = float(vs[0])
+            ok = float(g) == want
+        else:
+            r = next(reps).split()
+            if r[0] == "w":
+                # the emulator reports a signed 64-bit result for `int` and the unsigned value for `nat`; compare bit patterns
+                ok = (int(g) % P64) == int(r[1])
+                want = int(r[1])
+            elif r[0] == "b":
+                ok = bool(g) == (r[1] == "1")
+                want = r[1]
+            else:
+                ok, want = False, " ".join(r)
+        n += 1
+        if not ok:
+            if op == "imod_s" and vs[0] == -P63:
+                # the 1.0.4 runtime's lowering of imod_s returns a remainder outside [0, m) for n = -2^63 (e.g. 8 for m = 7),
+                # contradicting the op's own description ("0<=r<m"); IntSem follows the description.  Outside /repo.
+                deviations.append(f"{op}{vs}: emulator {g}, description/IntSem {want}")
+            else:
+                bad.append(f"{op}{vs}: emulator {g}, IntSem {want}")
+    ctx.extra["emulator_validation"] = {"ops": sorted({e[1] for e in expect}), "results_compared": n, "skipped_dunders": skipped,
+                                        "mismatches": bad[:20], "known_runtime_deviations_from_description": deviations,
+                                        "program": os.path.relpath(path, vlib.VERIF)}
+    ctx.bump("emulator-validation-results", n)
+    if bad:
+        raise vlib.Infra("Model/IntSem.lean disagrees with the 1.0.4 emulator (assumed op semantics wrong): " + "; ".join(bad[:8]))
 
 
 def _impl_str(row):
